@@ -9,7 +9,8 @@ LEVEL = "model_checking"
 RULE = ("records = real Grid.diff/interp/min/max calls on grids built from oriented decompositions (1x1..3x2 blocks, "
         "each direction open or periodic, an element of D4 per face, junctions expressible), cell-centred integer data, "
         "face dim anywhere among 0-1 extra dims, every rule on open edges; expectation computed by TLC from the "
-        "orientations only; non-trivial = distinct (K, per, orientation tuple) x (op, axis, to)")
+        "orientations only; non-trivial = distinct (K, per, orientation tuple) x (op, axis, to)"
+        ' Face tables are spelt with their dictionaries in any insertion order and with Python or numpy flags; a quarter of the calls follow an earlier operation on the same Grid.')
 
 OPS = ["diff", "interp", "min", "max"]
 
